@@ -476,7 +476,10 @@ theorem evalBuiltin_step {fuel : Nat} (ih : Spec fuel) : ∀ t ps st, Inv st →
     refine Post.ite (fun _ => Post.pure hIs hval) (fun _ => ?_)
     split
     · split
-      · exact Post.pure hIs (by simp [OkO, okObj, okPairs, errKey, valueKey])
+      · refine Post.bind_read (runM_curEnv s) ?_
+        refine Post.bind (post_triggerNoCache hIs hIs.cur) ?_
+        intro _ s2 hIs2 _ _
+        exact Post.pure hIs2 (by simp [OkO, okObj, okPairs, errKey, valueKey])
       · refine Post.pure hIs ?_
         simp only [OkO, okObj, okPairs, errKey, valueKey, Bool.and_eq_true, Bool.true_and, Bool.and_true]
         exact hval
